@@ -151,3 +151,50 @@ Lemma reload_proof cur c loadable :
   fst (dstep cur (DReload c loadable)) = (if valid_hosts c && loadable then c else cur)
   /\ (forall alpn sni, dstep cur (DSelect alpn sni) = (cur, Some (select cur alpn sni))).
 Proof. split; reflexivity. Qed.
+
+(* ---- the QUIC listener ---- *)
+Lemma parse_alpn_h3 : parse_alpn [alpn_h3] = [H3].
+Proof. vm_compute. reflexivity. Qed.
+
+Lemma spec_select_h3 c s :
+  spec_select c [alpn_h3] s =
+  match designated c s with
+  | None => None
+  | Some (ch, i, creds) =>
+    if (if respects_enabled ch then c_h3 c else true)
+    then Some {| m_channel := ch; m_proto := H3; m_host := i; m_creds := creds |} else None
+  end.
+Proof.
+  unfold spec_select. rewrite parse_alpn_h3. cbn [is_nil negb andb].
+  destruct (designated c s) as [[[ch i] creds]|]; [|reflexivity].
+  unfold spec_proto. cbn [filter is_nil andb].
+  assert (P : permitted ch H3 = true) by (destruct ch; reflexivity).
+  rewrite P. cbn [andb enabled].
+  destruct (respects_enabled ch); [destruct (c_h3 c)|]; reflexivity.
+Qed.
+
+Lemma quic_serves_designated_entry_proof c boot x s ch i creds :
+  c_h3 c = true -> designated c (x :: s) = Some (ch, i, creds) ->
+  select_quic true c boot (Some (x :: s)) = {| m_channel := ch; m_proto := H3; m_host := i; m_creds := creds |}.
+Proof.
+  intros E D. unfold select_quic. rewrite select_spec_proof, spec_select_h3, D, E.
+  destruct (respects_enabled ch); reflexivity.
+Qed.
+
+Lemma quic_undesignated_is_bootstrap_proof u c boot sni :
+  match sni with Some s => designated c s = None | None => True end ->
+  select_quic u c boot sni = bootstrap boot.
+Proof.
+  destruct sni as [[|x s]|]; intros D; try reflexivity.
+  unfold select_quic. destruct u; [|reflexivity].
+  rewrite select_spec_proof, spec_select_h3, D. reflexivity.
+Qed.
+
+Lemma quic_always_h3_proof u c boot sni : m_proto (select_quic u c boot sni) = H3.
+Proof.
+  destruct sni as [[|x s]|]; try reflexivity.
+  unfold select_quic. destruct u; [|reflexivity].
+  rewrite select_spec_proof, spec_select_h3.
+  destruct (designated c (x :: s)) as [[[ch i] creds]|]; [|reflexivity].
+  destruct (if respects_enabled ch then c_h3 c else true); reflexivity.
+Qed.
